@@ -559,4 +559,23 @@ Step(s) ==
 
 Done(s) == s.status # "run"
 
+(***************************************************************************)
+(* Reference semantics for C08: "as if only the chosen alternative had     *)
+(* ever been tried".  At an ordered choice the reference run executes ONE  *)
+(* alternative j directly (no snapshot, no flag, nothing to undo); j = 0   *)
+(* is the choice's else-branch (no alternative applies).                   *)
+(***************************************************************************)
+AtChoice(s) == s.stk # <<>> /\ Top(s).f = "rx" /\ NK(Top(s).n) = "oc"
+
+RefOptions(s) ==
+  LET alts == NC(Top(s).n) IN
+  {j \in 1..Len(alts) : InSet(s.cur, G.nodes[alts[j]].predict)}
+  \cup (IF InSet(s.cur, G.nodes[alts[Len(alts)]].predict) THEN {} ELSE {0})
+
+StepRef(s, j) ==
+  LET n == Top(s).n
+      s1 == IF j = 0 THEN Pop(AdvErr(s))
+            ELSE PushRx(SetTop(s, Frame("oc", n, j, NoReg, "last")), NC(n)[j])
+  IN [s1 EXCEPT !.steps = @ + 1]
+
 =============================================================================
